@@ -1,7 +1,7 @@
 (* Observation commands of the interpreter-tag domain (C15), prefix `t.`.  Definitions only. *)
 From Coq Require Import List NArith Bool String.
 Import ListNotations.
-Require Import VParse VDec Show Tags TagsLit TagsModel.
+Require Import VParse VDec Show Elf ElfFile Tags TagsLit TagsModel PlatLit PlatModel.
 Open Scope N_scope.
 
 (* list argument: every item is preceded by ","  ("" = [], ",a,b" = [a; b], "," = [""]) *)
@@ -45,11 +45,56 @@ Definition obs_gabi (ext cfg sysver : list N) : list N :=
   | GCrash => asc "!EXC:IndexError"
   end.
 
+(* ---- the generators with their default arguments (python_version None/(), abis None, platforms None/[], interpreter None/"") ----
+   detected platforms: "G<sysconfig.get_platform()>" on a generic system (one platform), "D<mac_ver release>;<cpu>" on Darwin
+   (platform.system() = "Darwin": mac_platforms() of PlatModel - many platforms); None = int() fails in mac_platforms *)
+Definition parse_det (s : list N) : option (list (list N)) :=
+  match s with
+  | c :: t => if c =? 68 then match split_on 59 t with [ver; cpu] => mac_default ver cpu [] | _ => None end
+              else Some [normalize_string t]
+  | [] => Some []
+  end.
+Definition parse_opv (s : list N) : option pyver := match s with [] => None | _ :: _ => Some (parse_pv s) end.     (* "" = None *)
+(* py_version_nodot: "N" = None, "S<text>" = a str, "I<digits>" = an int (the code applies str() to it) *)
+Definition parse_nodot (s : list N) : option (list N) :=
+  match s with
+  | c :: t => if c =? 83 then Some t
+              else if c =? 73 then (if parse_N t =? 0 then None else Some (show_N (parse_N t)))      (* int 0 is falsy; str(int) otherwise *)
+              else None
+  | [] => None
+  end.
+Definition mk_defaults (plats : list (list N)) (name nodot_var sysver : list N) : defaults :=
+  {| d_plats := plats; d_sysver := parse_pv sysver; d_name := name; d_nodot := parse_nodot nodot_var |}.
+Definition with_det (det : list N) (f : list (list N) -> list N) : list N :=
+  match parse_det det with Some plats => f plats | None => asc "!EXC:ValueError" end.
+Definition obs_cpython_d (pv abis ps cfg sysver det : list N) : list N :=
+  with_det det (fun plats =>
+    show_tags (cpython_tags_d (mk_defaults plats (asc "cpython") [78] sysver) (parse_cfg cfg) (parse_opv pv)
+                              (if seqb abis [63] then None else Some (parse_list abis)) (parse_list ps))).
+Definition obs_compat_d (pv interp ps sysver det : list N) : list N :=
+  with_det det (fun plats =>
+    show_tags (compatible_tags_d (mk_defaults plats (asc "cpython") [78] sysver) (parse_opv pv) (opt_interp interp) (parse_list ps))).
+Definition obs_generic_d (interp abis ps name nodot_var sysver det : list N) : list N :=
+  with_det det (fun plats => show_tags (generic_tags_d (mk_defaults plats name nodot_var sysver) interp (parse_list abis) (parse_list ps))).
+(* whole sys_tags() with the detected platform list of the steered system *)
+Definition obs_sys_p (name nodot_var sysver ext cfg det : list N) : list N :=
+  with_det det (fun plats =>
+    match sys_tags {| impl_name := name; py_version_nodot := parse_nodot nodot_var; sys_version := parse_pv sysver;
+                      ext_suffix := parse_optS ext; abi_cfg := parse_cfg cfg |} plats with
+    | SOk l => show_tags l
+    | SSystemError => asc "E"
+    | SCrash => asc "!EXC:IndexError"
+    end).
+
 Definition run_tags (cmd : list N) (args : list (list N)) : option (list N) :=
   let a := fun n => nth_str n args in
   if seqb cmd (asc "t.cpython") then Some (obs_cpython (a 0%nat) (a 1%nat) (a 2%nat) (a 3%nat))
   else if seqb cmd (asc "t.compat") then Some (obs_compat (a 0%nat) (a 1%nat) (a 2%nat))
   else if seqb cmd (asc "t.generic") then Some (obs_generic (a 0%nat) (a 1%nat) (a 2%nat))
   else if seqb cmd (asc "t.gabi") then Some (obs_gabi (a 0%nat) (a 1%nat) (a 2%nat))
+  else if seqb cmd (asc "t.cpythond") then Some (obs_cpython_d (a 0%nat) (a 1%nat) (a 2%nat) (a 3%nat) (a 4%nat) (a 5%nat))
+  else if seqb cmd (asc "t.compatd") then Some (obs_compat_d (a 0%nat) (a 1%nat) (a 2%nat) (a 3%nat) (a 4%nat))
+  else if seqb cmd (asc "t.genericd") then Some (obs_generic_d (a 0%nat) (a 1%nat) (a 2%nat) (a 3%nat) (a 4%nat) (a 5%nat) (a 6%nat))
+  else if seqb cmd (asc "t.sysp") then Some (obs_sys_p (a 0%nat) (a 1%nat) (a 2%nat) (a 3%nat) (a 4%nat) (a 5%nat))
   else if seqb cmd (asc "t.sys") then Some (obs_sys (a 0%nat) (a 1%nat) (a 2%nat) (a 3%nat) (a 4%nat) (a 5%nat))
   else None.
